@@ -135,7 +135,8 @@ def rand_header(rng, subset=None):
         if subset >> i & 1:
             kw[n] = rand_prop_value(rng, n, ty)
     size = rng.choice(BODY_SIZES) if rng.random() < 0.6 else rng.getrandbits(rng.choice([8, 16, 32, 64]))
-    return header.ContentHeader(0, size, commands.Basic.Properties(**kw))
+    # (the weight field is reserved: whatever the caller passes, zero travels -- and a peer's non-zero weight is accepted)
+    return header.ContentHeader(rng.choice([0, 0, 0, 1, 65535]), size, commands.Basic.Properties(**kw))
 
 
 def rand_body(rng, maxlen=300):
